@@ -73,6 +73,24 @@ def q_part(rep):
                                        config=[maxd, d]))
     finally:
         pe.MAX_DEPTH, pe._CURRENT_DEPTH = saved
+    # the limit is read from LOKY_MAX_DEPTH at import: default 10, 0/negative = unlimited
+    import os
+    import subprocess
+    for val, exp in [(None, 10), ("0", 0), ("-1", -1), ("1", 1), ("3", 3), ("10", 10), ("25", 25)]:
+        n += 1
+        env = dict(os.environ, PYTHONPATH=common.REPO)
+        env.pop("LOKY_MAX_DEPTH", None)
+        if val is not None:
+            env["LOKY_MAX_DEPTH"] = val
+        r = subprocess.run([sys.executable, "-c",
+                            "import loky.process_executor as pe; print('MAXDEPTH', pe.MAX_DEPTH)"],
+                           env=env, capture_output=True, text=True, timeout=60)
+        got = [l.split()[1] for l in r.stdout.splitlines() if l.startswith("MAXDEPTH")]
+        if got != [str(exp)]:
+            rep.add_violation(dict(signature=f"C19:env-parsing:{val}",
+                                   msg=f"LOKY_MAX_DEPTH={val!r} gives MAX_DEPTH={got} (expected "
+                                       f"{exp}; 0 and negative values mean unlimited) "
+                                       f"{r.stderr[-200:]}", config=[val]))
     return n, samples
 
 
